@@ -143,5 +143,5 @@ def reduce_line(line):
 
 
 def shape_key(case, results):
-    t = case[0].split()
+    t = (case[0].split() if case else []) + ["?", "?", "?"]
     return "vote-%s" % t[1]
